@@ -2797,7 +2797,13 @@ class LazyStackedTensorDict(TensorDictBase):
                 with open(prefix / "meta.json", "wb") as f:
                     f.write(
                         json.dumps(
-                            {"_type": str(type(self)), "stack_dim": self.stack_dim}
+                            {
+                                "_type": str(type(self)),
+                                "stack_dim": self.stack_dim,
+                                # the directory may hold more sub-directories than
+                                # members if a longer stack was saved there before
+                                "len": len(self.tensordicts),
+                            }
                         )
                     )
 
@@ -2842,7 +2848,9 @@ class LazyStackedTensorDict(TensorDictBase):
         stack_dim = metadata["stack_dim"]
         if out is not None:
             out = out.unbind(stack_dim)
-        while (prefix / str(i)).exists():
+        # older metadata do not record the number of members
+        length = metadata.get("len")
+        while (length is None or i < length) and (prefix / str(i)).exists():
             tensordicts.append(
                 TensorDict.load_memmap(
                     prefix / str(i),
